@@ -228,6 +228,15 @@ class Codec:
             #   (garbled trailer): that CheckSum field is the next frame's
             trailer = -1
         trailer_end = msg.find(self.SOH, trailer + 1) if trailer != -1 else -1
+        if (
+            trailer != -1
+            and len(msg) > trailer + 7
+            and (trailer_end == -1 or trailer_end > trailer + 7)
+        ):
+            # CheckSum is three digits and SOH: a field that goes on behind them lost
+            #   its SOH, what follows is not part of this frame
+            assert silent, "CheckSum field is not terminated"
+            return (None, valid_idx + trailer + 7, None)
         if trailer_end != -1:
             # the frame ends with its own CheckSum field, whatever follows it
             next_msg = trailer_end + 1
